@@ -1,4 +1,36 @@
-(* placeholder until the C04 theorems land *)
-From Jamm Require Import Conc.
-Lemma c04_placeholder : True. Proof. exact I. Qed.
-Print Assumptions c04_placeholder.
+(* C04 -- snapshot isolation holds under every thread schedule.
+   Model: model/Conc.v, the thread-level transition system of the lock protocol at the library's yield points,
+   for ANY number of reader / writer threads and ANY schedule (reachable = reflexive-transitive closure of step).
+   The flag Consts.begin_atomic (GENERATED from Tx::new) says which protocol the source implements; the real
+   library's scheduled runs are replayed step by step in this system on every check. *)
+From Coq Require Import List.
+From Jamm Require Import Consts Conc ConcFacts.
+Import ListNotations.
+
+(* every active reader's snapshot is intact: no writer has released-and-overwritten its pages *)
+Theorem C04_snapshots_intact : forall c0 ts s, initial_threads ts -> reachable true (init c0 ts) s -> snapshots_ok s.
+Proof. exact C04_snapshots. Qed.
+Print Assumptions C04_snapshots_intact.
+
+(* the snapshot a reader registers is the header current at that moment, hence at least as new as every commit
+   whose header was written before (cur never decreases) *)
+Theorem C04_snapshot_fresh : forall c0 ts s_before s i s' t, initial_threads ts ->
+  reachable true (init c0 ts) s_before -> reach_from true s_before s -> step true s i = Some s' ->
+  nth_error (threads s) i = Some t -> t_pc t = RFl ->
+  exists t', nth_error (threads s') i = Some t' /\ t_hdr t' = cur s /\ cur s_before <= t_hdr t'.
+Proof. exact C04_fresh. Qed.
+Print Assumptions C04_snapshot_fresh.
+
+(* the source at hand reads the header inside the registration critical section (generated) *)
+Theorem C04_source_begin_atomic : begin_atomic = true.
+Proof. reflexivity. Qed.
+
+(* the pinned protocol (header read and registration in two steps) violates the property:
+   1 reader, 2 writers, the 23-step schedule ex_sched *)
+Theorem C04_pinned_refuted :
+  initial_threads [reader0; writer0 false; writer0 false] /\
+  reachable false ex_s0 (run false ex_s0 ex_sched) /\
+  snapshots_okb (run false ex_s0 ex_sched) = false /\
+  ~ (forall s, reachable false ex_s0 s -> snapshots_ok s).
+Proof. exact C04_legacy_refuted. Qed.
+Print Assumptions C04_pinned_refuted.
